@@ -269,6 +269,14 @@ OnAlloc(e) ==
        \cup Chk(~(ok /\ stackLike /\ e.ups = 0 /\ e.cap0 >= 0 /\ (o.fam # "stack" \/ e.b = o.curblk)) \/
                   (e.cap0 - e.cap1 >= e.len + 2 * fence /\ e.cap0 - e.cap1 < e.len + 2 * fence + Max(e.al, 1)),
                 "C18", "StackCapacityMovesExactly", <<o.fam, e.cap0, e.cap1, e.len, e.al>>)
+       \* ... and whatever happened in the call (growth, a block from the cache, a block an earlier refused request
+       \* had switched to): after a successful allocation capacity_left() is the distance from the allocation's end
+       \* (plus its trailing fence) to the end of the block it lies in
+       \cup Chk(~(ok /\ o.fam = "stack" /\ HasBlk(e.b)) \/ e.cap1 = Blk(e.b).size - (e.off + e.len + fence),
+                "C18", "StackCapacityIsBlockEndMinusTop", <<e.b, e.off, e.len, e.cap1, IF HasBlk(e.b) THEN Blk(e.b).size ELSE -1>>)
+       \* (the harness reads capacity_left() as a signed number: a figure that wrapped around shows up negative)
+       \cup Chk(~(ok /\ o.fam = "stack") \/ (e.cap1 >= 0 /\ (~HasBlk(e.b) \/ e.cap1 <= Blk(e.b).size)),
+                "C18", "StackCapacityWithinBlock", <<e.b, e.cap0, e.cap1>>)
        \* a collection carves a reservation off its block for the bucket that ran empty: what leaves capacity_left()
        \* arrives in pool_capacity_left() of that bucket, less than one node, the alignment padding and the fences short
        \cup Chk(~(o.fam = "coll" /\ o.type # "small" /\ ok /\ e.op = "n" /\ e.ups = 0 /\ e.cap0 > e.cap1 /\ e.fn0 >= 0 /\ e.fn1 >= 0)
